@@ -3049,6 +3049,14 @@ impl Compiler {
                 return Ok(());
             }
 
+            // Handle star re-export: export * from "./bar"
+            if export.star_export {
+                self.builder.emit(Op::ReExportAll {
+                    source_module: source_idx,
+                });
+                return Ok(());
+            }
+
             // Handle named re-exports: export { foo, bar as baz } from "./bar"
             for spec in &export.specifiers {
                 let export_name_idx = self.builder.add_string(spec.exported.name.cheap_clone())?;
